@@ -259,6 +259,42 @@ func c20Pairs(w *core.W, j int) {
 				}
 			}
 		}
+		// the same records as they come out of a compressed message: the second copy of an embedded
+		// name is a pointer, so the records' RDLENGTH differ while their uncompressed RDATA does not
+		if l.Type != 41 && l.Type != 250 && l.Type != 249 {
+			for ci, allRdata := range []bool{false, true} {
+				mm := &model.Msg{ID: uint16(j), Bits: 0x8000, An: []*model.Rec{cloneRec(base), cloneRec(base)}}
+				for _, v := range variants {
+					if c20Key(base) == c20Key(v.r) && len(mm.An) < 5 {
+						mm.An = append(mm.An, cloneRec(v.r))
+					}
+				}
+				wire := mm.WireCompressed(allRdata)
+				if len(wire) > 65535 {
+					continue
+				}
+				dm := new(dns.Msg)
+				wit := map[string]any{"type": l.Name, "msg": hx(wire), "all_rdata_names_compressed": allRdata}
+				if err := dm.Unpack(wire); err != nil || len(dm.Answer) != len(mm.An) {
+					continue // what the decoder accepts is C02/C01's subject
+				}
+				w.Eval(1)
+				w.Cover("variant", []string{"from-compressed-message", "from-fully-compressed-message"}[ci])
+				w.Guard("IsDuplicate", wit, func() {
+					for x := range dm.Answer {
+						for y := range dm.Answer {
+							if !dns.IsDuplicate(dm.Answer[x], dm.Answer[y]) {
+								if c20Class(base) != "" {
+									return
+								}
+								w.Violation("C20/is-false-want-true/"+l.Name+"/from-compressed-message", fmt.Sprintf("records %d and %d of one compressed message have equal uncompressed octets (up to case) but IsDuplicate is false\n a=%s\n b=%s", x, y, cutS(dm.Answer[x].String()), cutS(dm.Answer[y].String())), wit)
+								return
+							}
+						}
+					}
+				})
+			}
+		}
 		// owners (and embedded names) that differ in one octet by 0x20 where neither octet is a letter
 		if l.Type != 41 && l.Type != 250 {
 			p1 := cloneRec(base)
